@@ -69,6 +69,15 @@ Theorem C07_client_table_matches_server :
 Proof. exact client_table_matches_server. Qed.
 Print Assumptions C07_client_table_matches_server.
 
+(* an iterator abandoned mid-stream: the replies still outstanding reach no other call, the connection stays busy *)
+Theorem C07_abandoned_stream_reaches_nobody : forall ops s k, Inv s -> k < ncalls s -> owns s k ->
+  Forall (fun o => op_call_index o < ncalls s /\ op_call_index o <> k) ops ->
+  let s1 := fst (cstep s (ODrop k)) in
+  cs_inbox (fst (crun s1 ops)) = cs_inbox s /\ cs_sent (fst (crun s1 ops)) = cs_sent s /\
+  cs_idle (fst (crun s1 ops)) = false /\ Forall (fun x => forall p, x <> ROk p) (snd (crun s1 ops)).
+Proof. exact abandoned_stream_reaches_nobody. Qed.
+Print Assumptions C07_abandoned_stream_reaches_nobody.
+
 (* tie: the functions this property's model describes by hand (not by translation) still have the pinned text; an
    edit to one of them breaks this obligation and sends the check searching for a failing input *)
 From VLG Require Import ShapeGen.
